@@ -101,6 +101,7 @@ def u1_lemmas(tier, ndjson=(0, 1), havoc=(0, 1)):
                                  "interleaving gives the same outcome by Q1 (C07)",
                             bound="3 tokens, message <= 263 bytes; index limit 1408 -> 2; async threshold 8192 -> 16 bytes; one schedule",
                             expect_reach=["U1.returned"]))
+            ls[-1].optional = True
     return ls
 
 
